@@ -52,7 +52,8 @@ TRecvAborted == /\ IsEvent("RecvAborted") /\ Run /\ ~Ev.inline /\ AbortRecv(Ev.s
 TEnd == /\ IsEvent("End") /\ phase = "run" /\ phase' = "idle" /\ Quiescent /\ UNCHANGED uvars
 TThrow == IsEvent("Throw") /\ Run /\ UNCHANGED uvars
 TEndThrown == IsEvent("EndThrown") /\ phase = "run" /\ phase' = "idle" /\ UNCHANGED uvars
-TNext == TSupersede \/ TStartWaitW \/ TWritable \/ TWaitWAborted \/ TRecvLate \/ TThrow \/ TEndThrown \/ TCfg \/ TAdv \/ TBind \/ TClose \/ TOpen \/ TCancel \/ TSndBuf \/ TDf \/ TSend \/ TArrive \/ TLost
+TWireU == IsEvent("WireU") /\ Run /\ UNCHANGED uvars
+TNext == TWireU \/ TSupersede \/ TStartWaitW \/ TWritable \/ TWaitWAborted \/ TRecvLate \/ TThrow \/ TEndThrown \/ TCfg \/ TAdv \/ TBind \/ TClose \/ TOpen \/ TCancel \/ TSndBuf \/ TDf \/ TSend \/ TArrive \/ TLost
          \/ TStartRecv \/ TReady \/ TRecv \/ TRecvAborted \/ TEnd
 TSpec == TInit /\ [][TNext]_tvars
 
@@ -60,5 +61,5 @@ RecordProgress == TLCSet(1, [l |-> l, inflight |-> Len(order)])
 TraceAccepted == LET d == TLCGet("stats").diameter - 1 IN
                  /\ PrintT(<<"MATCHED", d, Len(TraceLog), ToJson(TLCGet(1))>>)
                  /\ d = Len(TraceLog)
-TSocks == {"s1", "s2", "s3", "r1", "r2", "r3"}
+TSocks == {"s1", "s2", "s3", "s4", "r1", "r2", "r3"}
 =============================================================================
